@@ -474,6 +474,75 @@ def r6_temp_download(rep, src):
         rep.fail('C19.R6', f.site, 'download temporary removed', 'the temporary file of a download is not removed on every exit', where=f.where)
 
 
+def r7_history_order(rep, src):
+    """the chain of patches is the suffix of the history *list* from the first entry whose hash is the
+    local hash: order and multiplicity of the entries must survive, so the patch names may only travel
+    through ordered, duplicate-preserving containers"""
+    f = src.func(SITE)
+    flows = {}      # name -> set of names its value is built from
+    kinds = {}      # name -> 'list' | 'keyed'
+    for n in walk_no_nested(f.node):
+        tgt = val = None
+        if isinstance(n, ast.Assign) and len(n.targets) == 1:
+            tgt, val = n.targets[0], n.value
+        elif isinstance(n, ast.AnnAssign) and n.value is not None:
+            tgt, val = n.target, n.value
+        elif isinstance(n, ast.AugAssign):
+            tgt, val = n.target, n.value
+        elif isinstance(n, ast.Expr) and isinstance(n.value, ast.Call) and isinstance(n.value.func, ast.Attribute) \
+                and n.value.func.attr in ('append', 'extend', 'insert', 'add', 'update') and isinstance(n.value.func.value, ast.Name):
+            tgt, val = n.value.func.value, n.value
+        if tgt is None:
+            continue
+        base = tgt
+        while isinstance(base, ast.Subscript):
+            base = base.value
+        if not isinstance(base, ast.Name):
+            continue
+        name = base.id
+        srcs = {x.id for x in ast.walk(val) if isinstance(x, ast.Name) and x.id != name}
+        if isinstance(tgt, ast.Subscript):
+            srcs |= {x.id for x in ast.walk(tgt.slice) if isinstance(x, ast.Name)}
+        flows.setdefault(name, set()).update(srcs)
+        if isinstance(n, (ast.Assign, ast.AnnAssign)) and isinstance(tgt, ast.Name):
+            if isinstance(val, (ast.Dict, ast.Set, ast.DictComp, ast.SetComp)) or \
+                    (isinstance(val, ast.Call) and norm(val.func) in ('dict', 'set', 'frozenset', 'OrderedDict', 'collections.OrderedDict')):
+                kinds[name] = 'keyed'
+            elif isinstance(val, (ast.List, ast.ListComp)):
+                kinds.setdefault(name, 'list')
+        if isinstance(val, ast.Call) and norm(val.func) in ('sorted', 'reversed', 'set'):
+            kinds[name] = 'keyed'
+    if 'patches_to_apply' not in flows and kinds.get('patches_to_apply') != 'list':
+        raise AnalysisError('%s: the list of patches to apply was not found' % f.site)
+    seen, todo, via = set(), ['patches_to_apply'], {}
+    while todo:
+        x = todo.pop()
+        if x in seen:
+            continue
+        seen.add(x)
+        for y in flows.get(x, ()):
+            via.setdefault(y, x)
+            todo.append(y)
+    bad = [x for x in seen if kinds.get(x) == 'keyed']
+    if bad:
+        chain = [bad[0]]
+        while chain[-1] in via and chain[-1] != 'patches_to_apply':
+            chain.append(via[chain[-1]])
+        rep.fail('C19.R7', f.site, 'history entries keep order and multiplicity',
+                 'the patch chain is built through the keyed/unordered container `%s` (%s): a hash that occurs twice in the history '
+                 '(content reverted to an earlier version) loses an entry or its position' % (bad[0], ' → '.join(chain)), where=f.where)
+    else:
+        rep.ok('C19.R7', f.site, 'history entries keep order and multiplicity',
+               'patches_to_apply is fed from %s through lists only' % sorted(seen - {'patches_to_apply'}))
+    # the start of the chain is the entry whose hash equals the local hash
+    starts = [n for n in walk_no_nested(f.node) if isinstance(n, ast.Compare) and len(n.ops) == 1 and isinstance(n.ops[0], (ast.Eq, ast.In))
+              and 'local_hash' in (norm(n.left), norm(n.comparators[0])) and 'remote_hash' not in norm(n)]
+    if starts:
+        rep.ok('C19.R7', f.site, 'chain starts at the local version', norm(starts[0]), nontrivial=False)
+    else:
+        rep.fail('C19.R7', f.site, 'chain starts at the local version', 'no comparison of a history hash with the local hash', where=f.where)
+
+
 def check(src, rep, tier):
     rep.explanation = ('C19: CFG rules on update_file: the result-hash comparison (raise on mismatch) dominates the single replace_file '
                        'call and the hash is taken after the last patch; the per-patch hash comparison dominates patch_lines on the same '
@@ -488,6 +557,7 @@ def check(src, rep, tier):
     rep.need('C19.R4', 12)
     rep.need('C19.R5', 2)
     rep.need('C19.R6', 1)
+    rep.need('C19.R7', 2)
     g = rep.guard('C19.R1', r1_verify_before_replace, src)
     rep.guard('C19.R2', r2_single_writer, src)
     rep.guard('C19.R3', r3_replace_protocol, src)
@@ -495,3 +565,4 @@ def check(src, rep, tier):
         rep.guard('C19.R4', r4_fallbacks, src, g)
     rep.guard('C19.R5', r5_hash_backends, src)
     rep.guard('C19.R6', r6_temp_download, src)
+    rep.guard('C19.R7', r7_history_order, src)
